@@ -11,6 +11,7 @@ Request line:  `id enc <op> key=value …`
     glwe_stream  bits n b k kxe size rank sk=<cols> xa=<raw words> e=<poly> [pt=<col>]   (mask drawn by the model)
     glwe_cmp     same keys as glwe_stream: compressed encryption followed by decompress_glwe
     fill_uniform b n size xa=<raw words>                                               (one column)
+    masks        b n size rank cells xa=<raw words>      (masks of `cells` consecutive cells, flattened, `;` between cells)
     cmp_gglwe    bits n b kxe size rank rank_in dnum dsize sk=<cols> pt=<polys> top=<words> seeds=<4 words;…> child=<words;…> es=<polys>
     cmp_ggsw     same with one plaintext polynomial; answer of both: `<seed words;…> <cell/cell/…>` in storage order
                  (each cell = decompress_glwe of the stored (body, seed)); `seeds`/`child` is the table of `Source::new`
@@ -138,6 +139,18 @@ def handle (ts : List String) : String :=
           (kvPolys ts "sk") expand [] (kvPolys ts "es") with
       | none => "panic"
       | some cells => showCells b n rank ((rank + 1) * dnum) expand cells
+    | "masks" =>
+      -- `cells` consecutive cells, each `rank` mask columns drawn from the same source in order
+      let rank := kvNat ts "rank"
+      let rec go : Nat → List Nat → List String → Option (List String)
+        | 0, _, acc => some acc.reverse
+        | c + 1, xa, acc =>
+          match Core.drawMasks b n size rank xa with
+          | none => none
+          | some (ms, xa') => go c xa' (showInts (ms.flatten.flatten) :: acc)
+      match go (kvNat ts "cells") (natsOf ts "xa") [] with
+      | none => "panic"
+      | some l => if l.isEmpty then "-" else ";".intercalate l
     | "fill_uniform" =>
       match Sampling.vecFillUniform b n size (natsOf ts "xa") with
       | none => "panic"
